@@ -25,6 +25,15 @@ import (
 )
 
 const c01Extra = `
+// names that a "natural" (digit-run aware) or case-folding ordering would tie
+func X_step1(a int) int   { return a + 1 }
+func X_step01(a int) int  { return a * 3 }
+func X_step001(a int) int { return a - 7 }
+func X_Step1(a int) int   { return a << 2 }
+func X_gamma3(s string) string   { return s + "a" }
+func X_gamma003(s string) string { return "b" + s }
+func x_step1(a int) int { return a ^ 5 }
+
 func X_lockstep(a int, s []int) int {
 	t := 0
 	j := int8(0)
